@@ -101,6 +101,7 @@ fn op_name(op: u32, k: u32) -> String {
         35 => format!("storage reinterpretation {}", k),
         36 => "storage default".into(),
         37 => "storage eq".into(),
+        47 => "unsafe_from(lanes), to_lanes".into(),
         38 => format!("extract lane ({}) [Vec2 of u64x4]", k),
         39 => format!("insert lane (x,{}) [Vec2 of u64x4]", k),
         40 => "read_le".into(),
@@ -338,6 +339,10 @@ impl Gen {
             (&idx, &r1),
             (&r1, &idx),
             (&r1, &r1),
+            // rhs lanes all different and the result IS the rhs (& with all-ones; |, ^, + with zero; and
+            // their assign forms): a lane of a wide type taken from the wrong rhs lane shows on one case
+            (&ones, &idx),
+            (&zero, &idx),
         ] {
             v.push((p.0.clone(), p.1.clone()));
         }
@@ -653,6 +658,28 @@ fn g_storage(cx: &mut Cx, g: &mut Gen) {
         let r = guard(|| vec![(s128_from(0, &a) == s128_from(1, &a)) as u8]);
         cx.push(10, 37, 0, &a, &a, &[], r);
     }
+    // vec256_storage / vec512_storage (derived PartialEq over the arrays of vec128_storage): equal pairs,
+    // pairs from the binary stream, pairs differing in exactly one walked bit (a comparison that skips part
+    // of the value accepts one of them); the two sides are built through different word views
+    for (ty, n) in [(11u32, 32usize), (12, 64)] {
+        let mut pairs: Vec<(Vec<u8>, Vec<u8>)> = g.binary(n).into_iter().take(13).collect();
+        for a in g.few(n) {
+            pairs.push((a.clone(), a.clone()));
+            for j in g.walk_bits_sparse(n) {
+                let mut b = a.clone();
+                b[j / 8] ^= 1 << (j % 8);
+                pairs.push((a.clone(), b));
+            }
+        }
+        for (a, b) in pairs {
+            let r = if ty == 11 {
+                guard(|| vec![(s256_from(0, &a) == s256_from(2, &b)) as u8])
+            } else {
+                guard(|| vec![(s512_from(0, &a) == s512_from(1, &b)) as u8])
+            };
+            cx.push(ty, 37, 0, &a, &b, &[], r);
+        }
+    }
 }
 
 // ---------------------------------------------------------------------------
@@ -769,6 +796,7 @@ fn c12_extras(cx: &mut Cx, g: &mut Gen) {
     {
         let (mk, rd) = (|b: &[u8]| mk_u64x2x2(m, b), |v| rd_u64x2x2::<GM>(v));
         g_swap64::<U64x2x2>(cx, g, 4, 32, &mk, &rd);
+        g_assign_extra::<U64x2x2>(cx, g, 4, 32, &mk, &rd);
     }
     {
         let (mk, rd) = (|b: &[u8]| mk_u64x4(m, b), |v| rd_u64x4::<GM>(v));
@@ -778,6 +806,7 @@ fn c12_extras(cx: &mut Cx, g: &mut Gen) {
     {
         let (mk, rd) = (|b: &[u8]| mk_u128x2(m, b), |v| rd_u128x2::<GM>(v));
         g_arith::<U128x2>(cx, g, 6, 32, &mk, &rd);
+        g_assign_extra::<U128x2>(cx, g, 6, 32, &mk, &rd);
     }
     {
         let (mk, rd) = (|b: &[u8]| mk_u32x4x4(m, b), |v| rd_u32x4x4::<GM>(v));
@@ -787,10 +816,12 @@ fn c12_extras(cx: &mut Cx, g: &mut Gen) {
     {
         let (mk, rd) = (|b: &[u8]| mk_u64x2x4(m, b), |v| rd_u64x2x4::<GM>(v));
         g_swap64::<U64x2x4>(cx, g, 8, 64, &mk, &rd);
+        g_assign_extra::<U64x2x4>(cx, g, 8, 64, &mk, &rd);
     }
     {
         let (mk, rd) = (|b: &[u8]| mk_u128x4(m, b), |v| rd_u128x4::<GM>(v));
         g_arith::<U128x4>(cx, g, 9, 64, &mk, &rd);
+        g_assign_extra::<U128x4>(cx, g, 9, 64, &mk, &rd);
     }
 }
 
@@ -932,6 +963,30 @@ fn c13_extras(cx: &mut Cx, g: &mut Gen) {
         let (mke, rde) = (|b: &[u8]| mk_u64x2(m, b), |v| rd_u64x2::<GM>(v));
         g_vec_elems::<U64x4, U64x2>(cx, g, 5, 32, (38, 39), 2, 16, &mk, &rd, &mke, &rde,
             &|v, i| Vec2::<U64x2>::extract(v, i), &|v, e, i| Vec2::<U64x2>::insert(v, e, i));
+    }
+    // op 47: UnsafeFrom::unsafe_from of the soft.rs wrappers (x2::new / x4) on lanes built with from_lanes
+    type U32x4 = <GM as Machine>::u32x4;
+    type U128x1 = <GM as Machine>::u128x1;
+    let l32 = |b: &[u8]| -> U32x4 { mk_u32x4(m, b) };
+    let l64 = |b: &[u8]| -> U64x2 { mk_u64x2(m, b) };
+    let l128 = |b: &[u8]| -> U128x1 { mk_u128x1(m, b) };
+    for a in g.unary(32) {
+        let r = guard(|| rd_u32x4x2::<GM>(unsafe { UnsafeFrom::unsafe_from([l32(&a[0..16]), l32(&a[16..32])]) }));
+        cx.push(3, 47, 0, &a, &[], &[], r);
+        let r = guard(|| rd_u64x2x2::<GM>(unsafe { UnsafeFrom::unsafe_from([l64(&a[0..16]), l64(&a[16..32])]) }));
+        cx.push(4, 47, 0, &a, &[], &[], r);
+        let r = guard(|| rd_u64x4::<GM>(unsafe { UnsafeFrom::unsafe_from([l64(&a[0..16]), l64(&a[16..32])]) }));
+        cx.push(5, 47, 0, &a, &[], &[], r);
+        let r = guard(|| rd_u128x2::<GM>(unsafe { UnsafeFrom::unsafe_from([l128(&a[0..16]), l128(&a[16..32])]) }));
+        cx.push(6, 47, 0, &a, &[], &[], r);
+    }
+    for a in g.unary(64) {
+        let r = guard(|| rd_u32x4x4::<GM>(unsafe { UnsafeFrom::unsafe_from([l32(&a[0..16]), l32(&a[16..32]), l32(&a[32..48]), l32(&a[48..64])]) }));
+        cx.push(7, 47, 0, &a, &[], &[], r);
+        let r = guard(|| rd_u64x2x4::<GM>(unsafe { UnsafeFrom::unsafe_from([l64(&a[0..16]), l64(&a[16..32]), l64(&a[32..48]), l64(&a[48..64])]) }));
+        cx.push(8, 47, 0, &a, &[], &[], r);
+        let r = guard(|| rd_u128x4::<GM>(unsafe { UnsafeFrom::unsafe_from([l128(&a[0..16]), l128(&a[16..32]), l128(&a[32..48]), l128(&a[48..64])]) }));
+        cx.push(9, 47, 0, &a, &[], &[], r);
     }
     g_storage(cx, g);
 }
